@@ -1,6 +1,7 @@
 """The fake `scipp` module namespace built on symsc.variable."""
 from __future__ import annotations
 
+import builtins as _b
 import sys
 import types
 from fractions import Fraction
@@ -119,7 +120,7 @@ def arange(dim, start, stop=None, step=None, *, unit=DEFAULT, dtype=None):
     vals = []
     x = start
     n = 0
-    isint = all(isinstance(t, int | np.integer) for t in (start, stop, step))
+    isint = _b.all(isinstance(t, int | np.integer) for t in (start, stop, step))
     while (x < stop) if step > 0 else (x > stop):
         vals.append(x)
         n += 1
@@ -269,7 +270,7 @@ def where(condition, x, y):
     out = np.empty(shape + x.elem, dtype=object)
     for idx in np.ndindex(shape):
         out[idx] = xa[idx] if bool(c[idx]) else ya[idx]
-    return Variable(_arr=out, dims=dims, unit=x.unit, dtype=x.dtype, _rnd=(max(x._rnd[0], y._rnd[0]), max(x._rnd[1], y._rnd[1])))
+    return Variable(_arr=out, dims=dims, unit=x.unit, dtype=x.dtype, _rnd=(_b.max(x._rnd[0], y._rnd[0]), _b.max(x._rnd[1], y._rnd[1])))
 
 
 def _merge_dims_var(a, b):
